@@ -172,3 +172,58 @@ Proof.
   - eexists. split; [vm_compute; reflexivity|]. vm_compute. reflexivity.
   - eexists. split; [vm_compute; reflexivity|]. split; vm_compute; reflexivity.
 Qed.
+
+(* ------------------------------------------------------------------ round 4: the cut flag and the consumer APIs (Sem/Consumers.v)
+   A clause that ends in `!` yields True ("this clause committed") and returns; the flag travels through `yield from` up to the
+   consumer of the query.  The consumers - plain iteration, evaluate_bounded, list(), next()+close() - do not depend on it: *)
+From YP Require Import Sem.Consumers Sem.Native Sem.NativeChain.
+
+Theorem C05_consumers_ignore_cut_flag : forall (St A : Type) (read : St -> A) (r1 r2 : stream St),
+  map fst (fst r1) = map fst (fst r2) -> snd r1 = snd r2 ->
+  plain_iteration St A read r1 = plain_iteration St A read r2 /\
+  evaluate_bounded St A (fun _ => read) r1 = evaluate_bounded St A (fun _ => read) r2 /\
+  length (fst (list_query St r1)) = length (fst (list_query St r2)) /\ snd (list_query St r1) = snd (list_query St r2) /\
+  next_then_close St A read r1 = next_then_close St A read r2.
+Proof. exact consumers_ignore_flags. Qed.
+Print Assumptions C05_consumers_ignore_cut_flag.
+
+Theorem C05_evaluate_bounded_is_plain_iteration : forall (St A : Type) (read : St -> A) (r : stream St),
+  evaluate_bounded St A (fun _ => read) r = fst (plain_iteration St A read r).
+Proof. exact evaluate_bounded_is_plain_iteration. Qed.
+Print Assumptions C05_evaluate_bounded_is_plain_iteration.
+
+(* ... and a consumer that treats the flag as "no more answers" (stops after a flagged answer) delivers everything exactly when no
+   flagged answer has a successor; as soon as one has (the caller's own alternatives, a later definition of the chain) it loses
+   answers: the cut would discard alternatives that are not its clause's. *)
+Theorem C05_cut_flag_is_not_the_end_of_the_query : forall (St A : Type) (proj : bool -> St -> A) (r : stream St),
+  evaluate_bounded_stopping St A proj r = evaluate_bounded St A proj r <-> flag_only_last St (fst r).
+Proof. exact stopping_complete_iff. Qed.
+Print Assumptions C05_cut_flag_is_not_the_end_of_the_query.
+
+Theorem C05_stopping_at_the_cut_flag_loses_answers : forall (St A : Type) (proj : bool -> St -> A) (r : stream St) pre s post,
+  fst r = (pre ++ (s, true) :: post)%list -> post <> [] ->
+  length (evaluate_bounded_stopping St A proj r) < length (evaluate_bounded St A proj r).
+Proof. exact stopping_loses_answers. Qed.
+Print Assumptions C05_stopping_at_the_cut_flag_loses_answers.
+
+(* non-vacuity, on the engine with chains of definitions (Sem/NativeChain.v): script 1 `m(a) :- !.`, script 2 `m(b).`, both loaded
+   with overwrite=False: the cut commits the definition it belongs to, the query m(X) has the answers a and b; and with a caller
+   written in Python that passes the flagged answers of an inner query on inside its own loop (colour(C), first_shape(C,S)) the
+   stream [(s1,true); (s2,true); (s3,true)] is cut to one answer by the stopping consumer, while evaluate_bounded delivers three. *)
+Definition api_m1 : program := [ {| c_name := d "m"; c_args := [SAtom (d "a")]; c_body := BCut |} ].
+Definition api_m2 : program := [ {| c_name := d "m"; c_args := [SAtom (d "b")]; c_body := BTrue |} ].
+Definition api_f (p : list clause) : func :=
+  {| fn_name := d "m"; fn_arity := 1; fn_body := match compile_clauses p 0 with Some (code, _) => code | None => [] end |}.
+Example C05_consumers_nonvacuous :
+  (let w := build cempty [OLoad [api_f api_m1] false; OLoad [api_f api_m2] false] in
+   c_fix w (d "m") 1 = Some [CIr (api_f api_m1); CIr (api_f api_m2)] /\
+   map (fun x => den (sto x) (TVar 0)) (fst (cquery 5 w (d "m") [TVar 0] {| sto := []; nxt := 1 |})) = [TAtom (d "a"); TAtom (d "b")]) /\
+  (let r : stream nat := ([(1, true); (2, true); (3, true)], false) in
+   evaluate_bounded nat nat (fun _ x => x) r = [1; 2; 3] /\ evaluate_bounded_stopping nat nat (fun _ x => x) r = [1] /\
+   ~ flag_only_last nat (fst r)).
+Proof.
+  split.
+  - split; [reflexivity|vm_compute; reflexivity].
+  - split; [reflexivity|]. split; [reflexivity|].
+    intros H. specialize (H [] (1, true) [(2, true); (3, true)] eq_refl). cbn in H. discriminate H. discriminate.
+Qed.
